@@ -31,6 +31,12 @@ def run(env, tier, seed, broken=None):
         '%s n = 0;\n%s (n < 6) { n = n + 1; %s (%s j = 0; j < 3; n = n + 1) { j = j + 1; %s (j == 2) { %s; } } %s n; }\n' % (VAR, WHILE, FOR, VAR, IF, BREAK, PRINT),
         '%s t(x) { %s x; %s x; }\n%s (%s i = t(0); t(i) < 2; i = t(i + 1)) { %s "body"; }\n' % (FUN, PRINT, RETURN, FOR, VAR, PRINT),
     ]
+    extra += [
+        '%s n = 3;\n%s (; n = n - 1; ) { %s n; }\n%s n;\n' % (VAR, FOR, PRINT, PRINT),
+        '%s c = 0;\n%s t() { c = c + 1; %s "test"; %s c < 3; }\n%s (; t(); ) { %s "body"; }\n%s c;\n' % (VAR, FUN, PRINT, RETURN, FOR, PRINT, PRINT),
+        '%s c = 0;\n%s t() { c = c + 1; %s c < 3; }\n%s (; t(); c = c + 10) { %s c; }\n%s (t()) { %s c; }\n%s c;\n' % (VAR, FUN, RETURN, FOR, PRINT, WHILE, PRINT, PRINT),
+        '%s (; %s("more? ") == "y"; ) { %s "again"; }\n' % (FOR, INPUT, PRINT),
+    ]
     for v in ['0', '1', '""', '"a"', NIL, TRUE, FALSE, '[]', '{}', '0.0', '2 ** 1024 - 2 ** 1024', '-0', LEN]:
         extra.append('%s (%s) { %s "T"; } %s { %s "F"; }\n%s c = 0;\n%s (%s) { c = c + 1; %s (c > 1) { %s; } %s c; }\n' % (IF, v, PRINT, ELSE, PRINT, VAR, WHILE, v, IF, BREAK, PRINT))
     for e in extra:
@@ -39,6 +45,16 @@ def run(env, tier, seed, broken=None):
         cases.append({'id': 'r%d' % i, 'src': progs.random_program(sub_rng(seed, 'C05r%d' % i), 10, 3, fault_rate=0.02)})
     mism, ri, rm = diff_runs(env, cases, need_oracle=True)
     nontriv = set(ri[c['id']][0]['stdout'] for c in cases)
+    # long-running loops are outside the model's step budget: the property's own predicate on the implementation
+    longs = [('%s i = 0;\n%s (i < 1000003) { i = i + 1; }\n%s i;\n' % (VAR, WHILE, PRINT), b'1.000003e+06\n'),
+             ('%s s = 0;\n%s (%s i = 0; i < 1000002; i = i + 1) { s = s + 1; }\n%s s;\n' % (VAR, FOR, VAR, PRINT), b'1.000002e+06\n'),
+             ('%s s = 0;\n%s (%s i = 0; i < 1200; i = i + 1) { %s (%s j = 0; j < 1200; j = j + 1) { s = s + 1; } }\n%s s;\n' % (VAR, FOR, VAR, FOR, VAR, PRINT), b'1.44e+06\n')]
+    gl = [core.file_case('long%d' % i, src, '', timeout_ms=20000)[0] for i, (src, want) in enumerate(longs)]
+    rl = env.run_impl(gl, timeout_ms=20000)
+    for i, (src, want) in enumerate(longs):
+        r = rl['long%d' % i][0]
+        if r['status'] != 0 or r['stdout'] != want:
+            mism.append({'case': {'id': 'long%d' % i, 'src': src}, 'reason': 'a loop of more than a million iterations did not run to its end: status %s stdout %r stderr %r' % (r['status'], r['stdout'][:40], r['stderr'][:80])})
     # the property's stray-signal clause directly on the implementation
     for c, kind in ((cases[len(corpus_cases('C05')) + n - len(extra)], 'RStrayBreak'),):
         pass
